@@ -3,6 +3,9 @@ package c03
 import (
 	"testing"
 
+	tmproto "github.com/tendermint/tendermint/proto/tendermint/types"
+	"github.com/tendermint/tendermint/types"
+
 	"verif/sim"
 )
 
@@ -87,5 +90,97 @@ func TestRegressCommitStepAbandoned(t *testing.T) {
 		rs := net.Nodes[victim].RS()
 		t.Fatalf("victim never decides height 1 although it saw +2/3 precommits for the block and now holds every message: stuck at %d/%d/%v (commit round %d)\n%s",
 			rs.Height, rs.Round, rs.Step, rs.CommitRound, net.Tail(40))
+	}
+}
+
+// TestRegressCommitForOtherEncoding is the library-free replay of the finding C03-commit-for-other-encoding: a
+// faulty proposer sends ONE block in two serialisations (same hash, different part-set header). The node that holds
+// the block under the other header must neither halt when +2/3 precommits for the block id of the majority arrive
+// ("expected ProposalBlockParts header to be commit header" / "BlockStore can only save complete block part sets")
+// nor stay behind: once the parts of the committed encoding reach it, it decides.
+func TestRegressCommitForOtherEncoding(t *testing.T) {
+	for _, precommitsFirst := range []bool{true, false} {
+		done := false
+		for f := 0; f < 4 && !done; f++ {
+			var correct []int
+			for k := 0; k < 4; k++ {
+				if k != f {
+					correct = append(correct, k)
+				}
+			}
+			net, err := sim.New(sim.Config{Keys: []int{0, 1, 2, 3}, Powers: []int64{1, 1, 1, 1}, Correct: correct})
+			if err != nil {
+				t.Fatal(err)
+			}
+			for _, k := range net.Order {
+				net.Fire(k)
+			}
+			proposed := false
+			for _, p := range net.Pool {
+				if p.Kind == "proposal" {
+					proposed = true
+				}
+			}
+			if proposed { // a correct node is the round-0 proposer: try the next choice of the faulty key
+				net.Close()
+				continue
+			}
+			done = true
+			victim := correct[0]
+			rest := map[int]bool{correct[1]: true, correct[2]: true}
+			b, ps := net.AltBlock(net.Nodes[victim], f, []types.Tx{types.Tx("two-encodings")}, nil)
+			ps2 := sim.Reencode(b)
+			if b == nil || ps2 == nil || ps2.Header().Equals(ps.Header()) {
+				t.Fatal("script: could not build two encodings")
+			}
+			net.InjectProposal(f, 1, 0, -1, b, ps, map[int]bool{victim: true}, true)
+			id2 := net.InjectProposal(f, 1, 0, -1, b, ps2, rest, true)
+			for _, k := range net.Order {
+				for _, p := range net.Deliverable(k) {
+					if p.Kind == "proposal" || p.Kind == "part" {
+						net.Deliver(p, k)
+					}
+				}
+			}
+			net.InjectVote(f, tmproto.PrevoteType, 1, 0, id2, nil)
+			net.InjectVote(f, tmproto.PrecommitType, 1, 0, id2, nil)
+			deliverKind := func(kind string, to int) {
+				for _, p := range net.Deliverable(to) {
+					if p.Kind == kind {
+						net.Deliver(p, to)
+					}
+				}
+			}
+			for _, k := range net.Order {
+				deliverKind("prevote", k)
+			}
+			// the other two decide; their precommits reach the victim before (or after) the parts of the committed encoding
+			for k := range rest {
+				deliverKind("precommit", k)
+			}
+			if precommitsFirst {
+				deliverKind("precommit", victim)
+			}
+			for i := 0; i < 10 && net.Nodes[victim].BlockStore.Height() < 1 && net.Nodes[victim].Crashed == ""; i++ {
+				if !net.Quiesce() {
+					t.Fatal("VERIF-INFRA: gossip did not converge")
+				}
+				if net.Nodes[victim].BlockStore.Height() < 1 {
+					net.Fire(victim)
+				}
+			}
+			v := net.Nodes[victim]
+			if v.Crashed != "" {
+				t.Fatalf("correct node halted with a consensus failure on a commit for the other encoding of the block it holds (precommits first: %v): %s\n%s", precommitsFirst, v.Crashed, net.Tail(40))
+			}
+			if v.BlockStore.Height() < 1 {
+				rs := v.RS()
+				t.Fatalf("correct node never decides although it holds every message (precommits first: %v): stuck at %d/%d/%v\n%s", precommitsFirst, rs.Height, rs.Round, rs.Step, net.Tail(40))
+			}
+			net.Close()
+		}
+		if !done {
+			t.Fatal("script: no choice of the faulty key makes it the round-0 proposer")
+		}
 	}
 }
